@@ -9,8 +9,15 @@ from symdc.sqlmodel import Cell, CNULL, NULL, INT, REAL, TEXT, cell_eq
 from symdc.state import Item, Table, Nullable, same_cols, CACHE_COLS, ALL_BUT_ROWID
 from obligations.cache_ops import zv, is_num_like, directive_aware, Outcome
 
-POOL = [('a', 1), ('a', 2), ('b', 1)]
+POOL = [('a', 1), ('a', 2), ('b', 1), ('a', 0)]  # version 0 is falsy: `version or default` would misroute it
 NOROWID = ALL_BUT_ROWID
+
+
+def bool_is(ret, formula):
+    """the call returned a truth value (a bool, or its symbolic stand-in) equal to `formula`"""
+    if isinstance(ret, B):
+        return sx.EqB(formula, sx._fold(ret.z))
+    return isinstance(ret, bool) and sx.zB(sx.EqB(formula, ret))
 
 
 class DScn:
@@ -111,7 +118,7 @@ def ob_django(w, P):
     op = P['op']
     cl = []
     name = 'a'
-    ver = [None, 1, 2][int(w.int('version_i', 0, 2))]
+    ver = [None, 1, 2, 0][int(w.int('version_i', 0, 3))]
     eff_ver = 1 if ver is None else ver
     kc, rc = s.kc(name, eff_ver)
     val = w.int('val', -2 ** 40, 2 ** 40)
@@ -171,7 +178,7 @@ def ob_django(w, P):
         no_ties(now)
         ec, t = backend_expire(now, tcls, tval, dc.default_timeout)
         T_exp, res = rm.r_add(T0, kc, rc, Cell(INT, zv(val)), now, ec)
-        return finish(T_exp, True, [('C19', 'add returns True iff the key was absent or expired', isinstance(ret, bool) and sx.zB(sx.EqB(res.ok, ret)))])
+        return finish(T_exp, True, [('C19', 'add returns True iff the key was absent or expired', bool_is(ret, res.ok))])
     if op == 'get':
         ret = dc.get(name, -7, version=ver)
         now = now_()
@@ -184,20 +191,20 @@ def ob_django(w, P):
         now = now_()
         no_ties(now)
         _, res = rm.r_contains(T0, kc, rc, now)
-        return finish(T0, True, [('C19', 'has_key iff present and unexpired', isinstance(ret, bool) and sx.zB(sx.EqB(res.ok, ret)))])
+        return finish(T0, True, [('C19', 'has_key iff present and unexpired', bool_is(ret, res.ok))])
     if op == 'touch':
         ret = dc.touch(name, targ, version=ver)
         now = now_()
         no_ties(now)
         ec, t = backend_expire(now, tcls, tval, dc.default_timeout)
         T_exp, res = rm.r_touch(T0, kc, rc, now, ec)
-        return finish(T_exp, True, [('C19', 'touch returns True iff present and unexpired', isinstance(ret, bool) and sx.zB(sx.EqB(res.ok, ret)))])
+        return finish(T_exp, True, [('C19', 'touch returns True iff present and unexpired', bool_is(ret, res.ok))])
     if op == 'delete':
         ret = dc.delete(name, version=ver)
         now = now_()
         no_ties(now)
         T_exp, res = rm.r_delete(T0, kc, rc, now)
-        return finish(T_exp, True, [('C19', 'delete returns True iff the key existed', isinstance(ret, bool) and sx.zB(sx.EqB(res.ok, ret)))])
+        return finish(T_exp, True, [('C19', 'delete returns True iff the key existed', bool_is(ret, res.ok))])
     if op == 'pop':
         ret = dc.pop(name, -7, version=ver)
         now = now_()
